@@ -54,7 +54,8 @@ def generate(name, workdir):
             kind, path = spec.split(":", 1)
             f = S.find_fn(path)
             text = strip_comments(S.text[f["sig_start"]:f["body_close"] + 1])
-            rules = list(crate.get("rules", [])) + list(crate.get("items", {}).get(path, {}).get("rules", []))
+            items = crate.get("items", {})
+            rules = list(crate.get("rules", [])) + list(items.get(key + ":" + path, items.get(path, {})).get("rules", []))
             text = rewrite.apply_rules(text, rules, log, path)
             text = re.sub(r"^\s*pub(\s*\([^)]*\))?\s+", "", text)
             lines.append("// ---- extracted from %s:%d (%s)" % (rel, f["line"], path))
